@@ -264,6 +264,11 @@ M("extrapolate-box-transposed", ["C05"], "gaddlemaps/_manager.py",
   "            fgro.box_matrix = self.system.system_gro.box_matrix\n", "            fgro.box_matrix = self.system.system_gro.box_matrix.T\n")
 M("extrapolate-uses-template-molecule", ["C05"], "gaddlemaps/_manager.py",
   "                new_mol = complete_correspondence[name].exchange_map(mol)  # type: ignore", "                new_mol = complete_correspondence[name].exchange_map(complete_correspondence[name].start if len(mol) == 2 else mol)  # type: ignore")
+M("manager-scale-not-forwarded", ["C05"], "gaddlemaps/_manager.py",
+  "            complete_correspondence[name].init_exchange_map(scale_factor)", "            complete_correspondence[name].init_exchange_map()")
+M("manager-options-zipped-by-position", ["C10"], "gaddlemaps/_manager.py",
+  "        for name in restrictions:\n            restr = restrictions[name]\n            defor = deformation_types[name]\n            ignor = ignore_hydrogens[name]",
+  "        for (name, restr), defor, ignor in zip(restrictions.items(), deformation_types.values(), ignore_hydrogens.values()):")
 M("premature-check-after-open", ["C05"], "gaddlemaps/_manager.py",
   ["        for align in complete_correspondence.values():\n            if align.exchange_map is None:\n                raise SystemError(('Before extrapolating the system, '\n                                   'calculate_exchange_maps method must be '\n                                   'called.'))\n\n        with open_coordinate_file(fgro_out, 'w') as fgro:\n"],
   ["        with open_coordinate_file(fgro_out, 'w') as fgro:\n            for align in complete_correspondence.values():\n                if align.exchange_map is None:\n                    raise SystemError('calculate_exchange_maps method must be called.')\n"])
@@ -323,7 +328,7 @@ def run_one(m, quick_runs=None):
             env = dict(os.environ, VERIF_REPO=dst, VERIF_SHRINK_S="10", VERIF_WORKERS=os.environ.get("MUT_WORKERS", "4"),
                        VERIF_REPLAY_DIR=os.path.join(scratch, "replays"))
             cp = subprocess.run([sys.executable, os.path.join(V, "check.py"), prop, "--tier", "quick", "--no-evidence"],
-                                capture_output=True, text=True, env=env, timeout=1800)
+                                capture_output=True, text=True, env=env, timeout=1800, cwd=scratch)
             viol = any(l.startswith(f"VIOLATION property={prop} ") for l in cp.stdout.splitlines())
             res[prop] = (cp.returncode, viol, cp.stdout[-400:] if not viol else "")
         caught = all(rc == 1 and v for rc, v, _ in res.values())
